@@ -3,6 +3,8 @@ package busexec
 import (
 	"context"
 	"errors"
+	"runtime"
+	"strings"
 	"sync"
 
 	"github.com/google/uuid"
@@ -35,19 +37,66 @@ var installFaultHook sync.Once
 // InstallHook installs the executor's driver hook (fault injection + holds); idempotent.
 func InstallHook() { installFaultHook.Do(func() { sqlwrap.SetHook(faultHook) }) }
 
-// holds: actors (blocking pulls of the "blocked" scenario mode) whose further transactions are
-// parked at BEGIN until released, so that the steps running while the pull waits are observed
-// before the pull's own delivering transaction.
+// holds: actors (blocking pulls of the "blocked" scenario mode, stream sessions) whose further
+// transactions are parked at BEGIN until released, so that the steps running meanwhile are
+// observed before the actor's own next transaction. While holding, a BEGIN issued from one of the
+// functions named in `pass` is let through as long as `allow` lasts (stream sessions: the reader's
+// ack / modify-deadline transactions pass one at a time, the sender's fetches stay parked).
 type hold struct {
 	mu      sync.Mutex
+	cond    *sync.Cond
 	holding bool
-	allow   int // BEGINs still let through while holding
-	release chan struct{}
+	allow   int
+	pass    []string      // substrings of function names on the BEGIN's call stack
 	watch   bool          // signal txDone when a transaction of the actor ends (commit done / rollback)
 	txDone  chan struct{} // buffered
 }
 
+func newHold() *hold {
+	h := &hold{txDone: make(chan struct{}, 16)}
+	h.cond = sync.NewCond(&h.mu)
+	return h
+}
+
+func (h *hold) set(holding bool) {
+	h.mu.Lock()
+	h.holding = holding
+	h.mu.Unlock()
+	h.cond.Broadcast()
+}
+
+// letOne lets the next matching BEGIN through and arms the end-of-transaction signal.
+func (h *hold) letOne() {
+	h.mu.Lock()
+	h.allow, h.watch = 1, true
+	for len(h.txDone) > 0 {
+		<-h.txDone
+	}
+	h.mu.Unlock()
+	h.cond.Broadcast()
+}
+
 var holds sync.Map // actor -> *hold
+
+func stackHas(names []string) bool {
+	if len(names) == 0 {
+		return false
+	}
+	pcs := make([]uintptr, 64)
+	n := runtime.Callers(3, pcs)
+	frames := runtime.CallersFrames(pcs[:n])
+	for {
+		f, more := frames.Next()
+		for _, nm := range names {
+			if strings.Contains(f.Function, nm) {
+				return true
+			}
+		}
+		if !more {
+			return false
+		}
+	}
+}
 
 func holdHook(ev sqlwrap.Event) {
 	if ev.Kind != sqlwrap.Begin && ev.Kind != sqlwrap.CommitDone && ev.Kind != sqlwrap.Rollback {
@@ -60,7 +109,7 @@ func holdHook(ev sqlwrap.Event) {
 	h := v.(*hold)
 	if ev.Kind != sqlwrap.Begin {
 		h.mu.Lock()
-		if h.watch && h.txDone != nil {
+		if h.watch {
 			h.watch = false
 			select {
 			case h.txDone <- struct{}{}:
@@ -71,15 +120,17 @@ func holdHook(ev sqlwrap.Event) {
 		return
 	}
 	h.mu.Lock()
-	holding, ch := h.holding, h.release
-	if holding && h.allow > 0 {
-		h.allow--
-		holding = false
+	if h.holding {
+		matches := stackHas(h.pass)
+		for h.holding {
+			if matches && h.allow > 0 {
+				h.allow--
+				break
+			}
+			h.cond.Wait()
+		}
 	}
 	h.mu.Unlock()
-	if holding {
-		<-ch
-	}
 }
 
 func faultHook(ev sqlwrap.Event) error {
